@@ -34,7 +34,10 @@ CK_ORDER = ["nohook", "A", "B", "C", "n"]
 
 def configs(tier):
     if tier == "quick":
-        return [dict(name="Q2", modules=["ma", "mb"], checkers=["nohook", "A", "C"], small=True)]  # C: a typechecker module that imports mb
+        return [
+            dict(name="Q2", modules=["ma", "mb"], checkers=["nohook", "A", "C"], small=True),  # C: a typechecker module that imports mb
+            dict(name="Q1AB", modules=["mb"], checkers=["nohook", "A", "B"], small=True),  # two spies whose import strings differ in the last character only
+        ]
     return [
         dict(name="T2", modules=["ma", "mb"], checkers=["nohook", "A", "B", "n"]),
         dict(name="T2C", modules=["ma", "mb"], checkers=["nohook", "A", "C"], small=True),
@@ -43,6 +46,8 @@ def configs(tier):
 
 
 def orders(modules):
+    if "ma" not in modules:
+        return [["mb"]]
     out = [["ma"], ["mb"], ["mb", "ma"]]
     if "mc" in modules:
         out += [["mc"], ["mb", "mc"], ["ma", "mc"], ["mb", "ma", "mc"]]
